@@ -2,6 +2,7 @@ package main
 
 import (
 	"fmt"
+	"os"
 	"go/types"
 	"sort"
 	"strings"
@@ -238,6 +239,9 @@ func (vc *VC) checkFrame(fr *Frame, exit, entry *State, con *Contract, env *Spec
 				}
 			}()
 			t := vc.modTarget(&pre, m)
+			if os.Getenv("GOVC_DEBUG") != "" {
+				fmt.Fprintf(os.Stderr, "DEBUG modTarget %s -> %s %s\n", m, t.kind, t.comp)
+			}
 			switch t.kind {
 			case "place":
 				byComp[t.place.Comp] = append(byComp[t.place.Comp], t)
